@@ -79,10 +79,25 @@ def system_acts(v, rnd, cid):
             dict(kind="jsonld", arg="listed", entry="with-url", url=""),
             dict(kind="jsonld", arg="embedded", entry="with-url", url=rnd.choice(EMBEDDED_CONTEXTS))]
     pairs = [("strict-client", "http-name"), ("strict-client", "https-redirect-http"), ("strict-client", "https-name")]
-    pairs += rnd.sample([(e, u) for e in OUT_ENTRIES for u in OUT_URLS], 5)
+    # every client with a construction time of its own is asked for a plain-HTTP URL (did:web cannot express one: redirect instead)
+    pairs += [(e, "http-name") for e in LONG_LIVED + EARLY if e != "vdr-didweb"] + [("vdr-didweb", "https-redirect-http"), ("vdr-didweb", "https-name")]
+    pairs += rnd.sample([(e, u) for e in OUT_ENTRIES + LONG_LIVED + EARLY for u in OUT_URLS if expressible(e, u)], 8)
     for e, u in pairs:
+        if e == "vdr-didweb" and "web" not in v["did"].split(","):
+            continue      # no did:web resolver is registered on such a node
         acts.append(dict(kind="outbound", arg=u, entry=e, url=rnd.choice(OUT_URLS[u])))
     return acts
+
+
+# entry points whose request goes through a client that is constructed at a particular moment of the node's life
+LONG_LIVED = ["vdr-didweb", "vcr-statuslist", "vcr-openid4vci-wallet", "vcr-openid4vci-issuer", "discovery-get"]   # built in an engine's Configure
+EARLY = ["early-new", "early-cache", "early-tls"]                                                                    # built before anything is configured
+DIDWEB_URLS = ("https-name", "https-reserved", "https-redirect-http")     # what a did:web identifier can express
+TRUST_DEPENDENT = ("rfc003", "vcr-openid4vci-wallet", "vcr-openid4vci-issuer")   # TLS trust of these clients comes from tls.truststorefile
+
+
+def expressible(e, u):
+    return e != "vdr-didweb" or u in DIDWEB_URLS
 
 
 OUT_ENTRIES = ["strict-client", "rfc003", "iam-clientmetadata", "iam-presentationdefinition", "iam-asmetadata", "iam-openidconfig", "iam-issuermetadata",
@@ -207,8 +222,8 @@ def judge_act(case, a, pact):
                       % (a["entry"], a["url"])))
     if pact is not None:
         want = pact["standalone"] if case["layer"] == "outbound" else pact["verdict"]
-        if kind == "outbound" and a["entry"] == "rfc003" and case["layer"] == "system":
-            pass   # the relying party's TLS trust comes from tls.truststorefile: whether the redirecting test server is trusted depends on the vector
+        if kind == "outbound" and a["entry"] in TRUST_DEPENDENT and case["layer"] == "system" and a["arg"] == "https-redirect-http":
+            pass   # TLS trust of these clients comes from tls.truststorefile: whether the redirecting test server is trusted depends on the vector
         elif want != a["verdict"]:
             drift.append("%s: model predicts %s, code %s (%s)" % (where, want, a["verdict"], a["err"][:120]))
         elif kind == "outbound" and bool(pact["plain"]) != bool(a["plain"] or any(d.endswith(":80") or d.endswith(":8080") for d in a["dials"])):
@@ -257,6 +272,13 @@ def run(prop, tier, seed, replay=None):
         raise Inconclusive("prescriptive model: %s %s\n%s" % (m.violation, m.error, m.raw[-2000:]))
     models = [dict(cfg="Config.prescriptive.cfg", states=m.distinct, transitions=m.generated, wall_s=round(m.wall, 1))]
     if not quick:
+        full = vlib.tlc("MCConfig", "Config.full.cfg", workers=min(8, vlib.NCPU), timeout=900)
+        if full.error or full.violation:
+            raise Inconclusive("full model (actions on every running vector): %s %s" % (full.violation, full.error))
+        models.append(dict(cfg="Config.full.cfg", states=full.distinct, transitions=full.generated, wall_s=round(full.wall, 1)))
+        snapw = vlib.tlc("MCConfig", "Config.witnessSnapshotFlag.cfg", workers=2, timeout=300)
+        if snapw.violation != "NoPlainHttpInStrict":
+            raise Inconclusive("the model does not distinguish when a client is constructed (%s %s)" % (snapw.violation, snapw.error))
         for a in ("Load", "Configure", "Start", "Act"):
             if not m.coverage.get(a):
                 raise Inconclusive("vacuity: action %s never fired (%s)" % (a, m.coverage))
@@ -344,7 +366,7 @@ def run(prop, tier, seed, replay=None):
                         u = rnd.choice(EMBEDDED_CONTEXTS) if ctx == "embedded" else "http://{PLAIN}/ctx/%s-%s-%d-%d.jsonld" % (ctx, al, int(strict), n)
                         jacts.append(dict(kind="jsonld", arg=ctx, entry=al, url=u))
             add("jsonld", dict(base, strict=strict, dummy=False), dict(strict=strict), acts_=jacts, pred=dict(accepted=True, by="", why=""))
-        for e in OUT_ENTRIES:
+        for e in OUT_ENTRIES + EARLY:
             oacts = [dict(kind="outbound", arg=cls, entry=e, url=u) for cls in sorted(OUT_URLS) for u in OUT_URLS[cls]]
             add("outbound", dict(base, strict=strict, dummy=False), dict(strict=strict), acts_=oacts, pred=dict(accepted=True, by="", why=""), start=False)
 
@@ -453,8 +475,9 @@ def run(prop, tier, seed, replay=None):
                drift=ndrift, notes=nnotes, cases_matching_only_the_prescriptive_design=repaired, models=models, samples=samples,
                rule="TLC enumerates the complete product of Config.tla: %d configuration vectors (strictmode x 7 public URL classes x tls on/off/offload x "
                     "crypto.storage x storage.sql.connection x dummy validator x IRMA scheme x 3 didmethods sets, plus moved keys x secrets x channel over a "
-                    "secure and an insecure base) and %d (strict, dummy, action) cases (dummy sign/verify, JSON-LD context class x allow-list, 13 outbound "
-                    "entry points x 6 URL classes); invariants proven for the transcribed guards. Every engine's full local product runs on the real "
+                    "secure and an insecure base) and %d (strict, dummy, action) cases (dummy sign/verify, JSON-LD context class x allow-list, 21 outbound "
+                    "entry points x 6 URL classes: 13 with clients built on demand, 5 through the long-lived clients vdr / vcr / discovery build in their own "
+                    "Configure before http.Engine.Configure switches client.StrictMode on, 3 through clients built before anything is configured); invariants proven for the transcribed guards. Every engine's full local product runs on the real "
                     "engine's Configure (all concrete URL variants); the assembled cmd.CreateSystem is loaded through the real flag set / environment / yaml "
                     "(channel per option seeded; two concretisations per vector in the thorough tier) for %s, started, probed (gRPC port, actions), shut down. distinct_nontrivial = distinct (layer, abstract "
                     "vector, concrete URL) start-ups plus distinct (layer, strict, dummy, action, concrete URL) actions executed."
@@ -466,6 +489,9 @@ def run(prop, tier, seed, replay=None):
                          "the assembled system is driven through cmd.CreateSystem/CreateCommand + System.Load/Configure/Migrate/Start, i.e. the body of "
                          "cmd/root.go startServer re-enacted (logrus.Fatal would end the process); a check added to startServer itself would be missed",
                          "outbound requests are observed at the dialer of the repo's HTTP transport, rerouted to local servers; 'performed' = a connection attempt left the node",
+                         "long-lived clients are reached through the running engines: did:web resolution (vdr), credential verification with a StatusList2021 entry (vcr), "
+                         "a forwarded discovery Get (definitions generated per URL, discovery.client.refresh_interval=0), and the two OpenID4VCI clients of vcr through "
+                         "the accessor shim shims/vcr/zz_verif_config.go.txt (a renamed field makes the check exit 2)",
                          "'network TLS switched off' is insecure only when did:nuts is enabled: without it network.Configure starts no gRPC listener (probed) and the "
                          "documentation says the tls.* options can then be ignored",
                          "harness-fixed options: free ports, pki.denylist.url empty, network.enablediscovery=false, goldenhammer off, verbosity error"])
